@@ -35,7 +35,8 @@ ASSUMPTIONS = [
 
 A4 = [["uint", 8, "s"], ["uint", 3, "s"], ["varr", ["uint", 16, "s"], 2], ["bool"]]
 A6 = A4 + [["int", 16], ["struct", [["bool"], ["uint", 8, "s"]]]]
-A8 = A4 + [["farr", ["byte"], 2], ["varr", ["utf8"], 2], ["farr", ["uint", 8, "s"], 2], ["varr", ["byte"], 3]]  # byte / text arrays (bulk read paths)
+A8 = A4 + [["farr", ["byte"], 2], ["varr", ["utf8"], 2], ["farr", ["uint", 8, "s"], 2], ["varr", ["byte"], 3],
+           ["float", 32, "s"], ["float", 64, "t"], ["float", 16, "s"]]  # byte / text arrays and floats (bulk / byte-wise read paths)
 _E = ["delim", ["struct", [["uint", 16, "s"]]], 64]
 AD = [_E, ["struct", [_E]], ["farr", _E, 2], ["union", [_E, ["bool"]]]]  # appended members that are delimited themselves (their headers are zero-extended too)
 NAMINGS = ["distinct", "same-name-next-minor", "same-name-same-version"]
